@@ -70,9 +70,32 @@ def make_recording_orchestrator():
     return RecordingOrchestrator()
 
 
+def scramble_config(obj: Any) -> None:
+    """Edit a configuration structure IN PLACE, the way a caller may after having built a pipeline from it:
+    numbers change, strings (processor names, expressions, keys) are replaced, lists are emptied, mappings lose
+    their entries.  A built Pipeline must not be affected (it must not alias its caller's dicts and lists)."""
+    if isinstance(obj, dict):
+        for k in list(obj):
+            v = obj[k]
+            if isinstance(v, (dict, list)):
+                scramble_config(v)
+            elif isinstance(v, (int, float)) and not isinstance(v, bool):
+                obj[k] = 987.0
+            elif isinstance(v, str):
+                obj[k] = "scrambled_" + v[:3]
+        for k in list(obj)[1:]:
+            del obj[k]
+        obj["added_after_build"] = 1.0
+    elif isinstance(obj, list):
+        for v in obj:
+            scramble_config(v)
+        del obj[:]
+
+
 def run_nodes(nodes: List[Dict[str, Any]], data: Any, ctx: Dict[str, Any], *, trace=None,
-              pipeline=None, orchestrator=None) -> Dict[str, Any]:
-    """Run a node list on (data, ctx) through the real Pipeline and return the observation."""
+              pipeline=None, orchestrator=None, scramble: bool = False) -> Dict[str, Any]:
+    """Run a node list on (data, ctx) through the real Pipeline and return the observation.
+    scramble: build from a private copy of `nodes` WITHOUT a further copy, then edit that copy in place before running."""
     from semantiva.context_processors import ContextType
     from semantiva.pipeline import Payload, Pipeline
     from .gamma import a_ctx, a_data
@@ -83,9 +106,12 @@ def run_nodes(nodes: List[Dict[str, Any]], data: Any, ctx: Dict[str, Any], *, tr
     started0 = orch._started
     nev0 = len(orch.events)
     try:
-        p = pipeline or Pipeline(copy.deepcopy(nodes), orchestrator=orch, trace=trace)
+        given = copy.deepcopy(nodes)
+        p = pipeline or Pipeline(given, orchestrator=orch, trace=trace)
         if pipeline is not None:
             p.orchestrator = orch
+        elif scramble:
+            scramble_config(given)
     except Exception as exc:  # loader rejects the configuration
         obs["construct_error"] = f"{type(exc).__name__}: {exc}"
         return obs
